@@ -393,9 +393,182 @@ def check_wide(case):
 
 
 
+# ---------------------------------------------------------------------------------------------------------------------
+# (viii) flag provenance: where the chemostat map IN EFFECT comes from.  Documentation: json_and_dict_doc.rst "chstt" (boolean =
+# globally; dictionary environment label -> boolean, "default" key for the environments not listed, itself false by default);
+# setting_up_initial_conditions.rst ("Default chemostats are generated based on the chstt attribute of the species, however, it
+# is also possible to specify explicitly the chemostat distribution"); RDSystem(chemostats=), set_chemostat, reset_chemostats,
+# set_default_chemostats.  Whatever the provenance, only the (species, cell) entry of the map in effect decides.
+
+CHSTT_FORMS = [False, True, {"a": True, "b": False}, {"b": True}, {"a": False, "default": True},
+               {"a": True, "b": False, "default": True}]
+PROV_SPACES = [("grid", [0, 1, 1], 2), ("grid", [0, 1, 2], 3), ("graph", [0, 1, 1], 2), ("graph", [0, 1, 2], 3),
+               ("grid", [1], 2), ("graph", [1], 2)]
+
+
+def doc_flag(chstt, envlabel):
+    if isinstance(chstt, dict):
+        if envlabel in chstt:
+            return 1 if chstt[envlabel] else 0
+        return 1 if chstt.get("default", False) else 0
+    return 1 if chstt else 0
+
+
+def doc_generated_map(spec):
+    env = ratelaw.cell_env(spec["space"])
+    return [doc_flag(sp.get("chstt", False), spec["envs"][e]) for sp in spec["species"] for e in env]
+
+
+def prov_expected(case):
+    """The map in effect, from the documentation and the operations of the case."""
+    spec = case["spec"]
+    gen = doc_generated_map(spec)
+    m = list(spec["chemostats"]) if spec.get("chemostats") is not None else list(gen)
+    nc = case["shape"][1]
+    for op in case["ops"]:
+        if op[0] == "set":
+            m[op[1] * nc + op[2]] = 1 if op[3] else 0
+        elif op[0] == "reset":
+            m = [0] * len(m)
+        elif op[0] == "regenerate":
+            m = list(gen)
+    return m
+
+
+def _prov_space(gtype, envs):
+    nc = len(envs)
+    if gtype == "grid":
+        return {"type": "grid", "w": nc, "h": 1, "d": 1, "vol": 2.0, "env": list(envs), "bc": {"x": "periodical"} if nc == 3 else {}}
+    nodes = [{"vol": [1.0, 8.0, 0.5][i], "env": envs[i]} for i in range(nc)]
+    edges = [[i, i + 1, 1.5 + i, 0.75 + i / 2] for i in range(nc - 1)]
+    if nc == 3:
+        edges.append([2, 0, 4.5, 2.25])
+    return {"type": "graph", "nodes": nodes, "edges": edges}
+
+
+def gen_prov(tier, seed0):
+    seeds = [1000 * seed0]
+    nets = [n for n in _networks(2) if n[1]][:2] if tier == "quick" else [n for n in _networks(2) if n[1]]
+    pairs = [(i, j) for i in range(len(CHSTT_FORMS)) for j in range(len(CHSTT_FORMS))]
+    sub = [(i, (i + 2) % 6) for i in range(6)]         # quick: the operations on a sub-family of the flag pairs
+    for si, (gtype, envs, nenv) in enumerate(PROV_SPACES):
+        nc = len(envs)
+        n = 2 * nc
+        for pi, (i, j) in enumerate(pairs):
+            for ni, (netname, reactions, Dc) in enumerate(nets):
+                if tier == "quick" and ni != (pi + si) % len(nets):
+                    continue
+                spec0 = {"species": [{"label": "A", "D": Dc[0], "chstt": CHSTT_FORMS[i]}, {"label": "B", "D": Dc[1], "chstt": CHSTT_FORMS[j]}],
+                         "reactions": reactions, "envs": ["a", "b", "c"][:nenv], "space": _prov_space(gtype, envs),
+                         "state": [float(v) for v in STATE_INT[:n]]}
+                gen = doc_generated_map(spec0)
+                variants = [("generated", None, [])]
+                if tier == "thorough" or (i, j) in sub:
+                    for q in range(n):                 # one entry edited against what the species says, each entry in turn
+                        variants.append(("edited-one", None, [["set", q // nc, q % nc, [0, 1][1 - gen[q]] * [1, True, 5][q % 3]]]))
+                    variants.append(("edited-all", None, [["set", q // nc, q % nc, 0 if gen[q] else 1] for q in range(n)]))
+                    variants.append(("explicit-zero", [0] * n, []))
+                    variants.append(("explicit-complement", [0 if v else 1 for v in gen], []))
+                    variants.append(("explicit-rotated", [gen[(q + 1) % n] for q in range(n)], []))
+                    variants.append(("reset", None, [["reset"]]))
+                    variants.append(("explicit-then-regenerated", [0 if v else 1 for v in gen], [["regenerate"]]))
+                for mode, explicit, ops in variants:
+                    spec = dict(spec0)
+                    if explicit is not None:
+                        spec["chemostats"] = explicit
+                    yield {"prov": True, "mode": mode, "shape": [2, nc], "gtype": gtype, "net": netname, "spec": spec, "ops": ops,
+                           "chstt": [CHSTT_FORMS[i], CHSTT_FORMS[j]], "seeds": seeds}
+
+
+def check_prov(case):
+    out = []
+    spec = case["spec"]
+    ns, nc = case["shape"]
+    n = ns * nc
+    x0 = spec["state"]
+    chem = prov_expected(case)
+    how = "species chstt %r, cell environments %r, %s map%s" % (case["chstt"], ratelaw.cell_env(spec["space"]), case["mode"],
+                                                             (" %r" % (case["ops"],)) if case["ops"] else "")
+    try:
+        system = models.build_system(spec)
+        for op in case["ops"]:
+            if op[0] == "set":
+                system.set_chemostat(op[1] if op[2] % 2 == 0 else spec["species"][op[1]]["label"], op[2], op[3])
+            elif op[0] == "reset":
+                system.reset_chemostats()
+            else:
+                system.set_default_chemostats()
+        got_map = [int(v) for v in system.chemostats]
+    except Exception as e:
+        return [("C03:provenance:build:unexpected-exception", "%s: %s: %s" % (how, type(e).__name__, e))]
+    if [1 if v else 0 for v in got_map] != chem:
+        return [("C03:provenance:chemostat-map:%s" % case["mode"], "%s: system.chemostats = %r, documented map %r" % (how, got_map, chem))]
+    eff = dict(spec, chemostats=chem)
+    f, sc = ratelaw.rhs(eff, apply_chemostats=True)
+    f2, sc2 = ratelaw.rhs(eff, apply_chemostats=False)
+    # kinetics, whole state and entry by entry
+    try:
+        a = [float(v) for v in kinetics.compute_dstatedt(system, apply_chemostats=True).value]
+        for q in range(n):
+            if chem[q] and a[q] != 0.0:
+                out.append(("C03:compute_dstatedt:flagged-entry-nonzero", "%s: entry %d is chemostated, derivative %.6g" % (how, q, a[q])))
+                break
+        _cmp_entries("compute_dstatedt", a, f, sc, chem, out)
+        a2 = [float(v) for v in kinetics.compute_dstatedt(system, apply_chemostats=False).value]
+        _cmp_entries("compute_dstatedt(apply_chemostats=False)", a2, f2, sc2, [0] * n, out)
+    except Exception as e:
+        out.append(("C03:compute_dstatedt:unexpected-exception", "%s: %s: %s" % (how, type(e).__name__, e)))
+    try:
+        b = []
+        for q in range(n):
+            sidx, c = divmod(q, nc)
+            b.append(float(kinetics.compute_dspeciesdt(system, sidx if c % 2 else spec["species"][sidx]["label"], c).value))
+        for q in range(n):
+            if chem[q] and b[q] != 0.0:
+                out.append(("C03:compute_dspeciesdt:flagged-entry-nonzero", "%s: entry %d is chemostated, derivative %.6g" % (how, q, b[q])))
+                break
+        _cmp_entries("compute_dspeciesdt", b, f, sc, chem, out)
+    except Exception as e:
+        out.append(("C03:compute_dspeciesdt:unexpected-exception", "%s: %s: %s" % (how, type(e).__name__, e)))
+    if nc == 1:
+        try:
+            g = [float(v) for v in system.make_dxdtf()(0.0, list(x0))]
+            for q in range(n):
+                if chem[q] and g[q] != 0.0:
+                    out.append(("C03:make_dxdtf:flagged-entry-nonzero", "%s: entry %d chemostated, rhs %.6g" % (how, q, g[q])))
+                    break
+            _cmp_entries("make_dxdtf", g, f, sc, chem, out)
+        except Exception as e:
+            out.append(("C03:make_dxdtf:unexpected-exception", "%s: %s: %s" % (how, type(e).__name__, e)))
+    try:
+        irr = ratelaw.irreversible(spec)
+        for ri in range(len(spec["reactions"])):
+            nu = irr[2 * ri][1]
+            for pos in range(nc):
+                for nn in (1, -1):
+                    got = [float(v) for v in system.apply_reaction(ri, position=pos, n=nn).value]
+                    for q in range(n):
+                        exp = x0[q] + (nn * nu[q // nc] if (q % nc == pos and not chem[q]) else 0)
+                        if got[q] != exp:
+                            out.append(("C03:apply_reaction:%s" % ("flagged-entry-changed" if chem[q] else "wrong-entry"),
+                                        "%s: reaction %d at cell %d n=%d: entry %d became %.6g, expected %.6g" % (how, ri, pos, nn, q, got[q], exp)))
+                            raise StopIteration
+    except StopIteration:
+        pass
+    except Exception as e:
+        out.append(("C03:apply_reaction:unexpected-exception", "%s: %s: %s" % (how, type(e).__name__, e)))
+    k0 = len(out)
+    _engines(out, eff, system, case["seeds"], DT, 2, gil_iter=24)
+    for k in range(k0, len(out)):
+        out[k] = (out[k][0], "%s: %s" % (how, out[k][1]))
+    return out
+
+
 def check_case(case):
     if case.get("wide"):
         return check_wide(case)
+    if case.get("prov"):
+        return check_prov(case)
     out = []
     spec = case["spec"]
     ns, nc = case["shape"]
@@ -497,6 +670,19 @@ def _work(job):
         res = check_case(case)
         nflag = sum(case["spec"]["chemostats"])
         nruns = 1 + 2 * len(case["seeds"])
+        if case.get("prov"):
+            exp = prov_expected(case)
+            truthy = [1 if sp.get("chstt") else 0 for sp in case["spec"]["species"]]
+            nc_ = case["shape"][1]
+            differs = any(truthy[q // nc_] and not exp[q] for q in range(len(exp)))
+            acc.add(states=1, transitions=nruns + 3 + len(exp), traces=nruns + 3, evaluations=nruns + 3 + len(exp),
+                    nontrivial=1 if any(truthy) else 0)
+            acc.count("provenance_cases:" + case["mode"])
+            acc.count("provenance_cases_free_entry_of_a_species_with_truthy_chstt", 1 if differs else 0)
+            acc.count("engine_runs", nruns)
+            for key, what in res:
+                acc.violation(key, what, case)
+            continue
         if case.get("wide"):
             acc.count("wide_cases_%d_species" % case["shape"][0])
             acc.add(states=1, transitions=nruns, traces=nruns, evaluations=nruns, nontrivial=1)
@@ -535,6 +721,8 @@ def run(ctx):
     nowned = len(_CASES) - nplain
     _CASES += list(gen_wide(ctx.tier, ctx.seed))
     nwide = len(_CASES) - nplain - nowned
+    _CASES += list(gen_prov(ctx.tier, ctx.seed))
+    nprov = len(_CASES) - nplain - nowned - nwide
     eng.so_path("plain")
     try:
         eng.so_path("probe")
@@ -543,6 +731,7 @@ def run(ctx):
     nhead = nplain + nowned
     # the wide cases are the heaviest: small chunks, started first
     jobs = [(nhead + lo, nhead + hi) for lo, hi in pool.chunks(nwide, 2)] + pool.chunks(nhead, 12)
+    jobs += [(nhead + nwide + lo, nhead + nwide + hi) for lo, hi in pool.chunks(nprov, 16)]
     res = pool.pmap(_work, jobs, timeout=600)
     done = 0
     for job, r in zip(jobs, res):
@@ -570,6 +759,15 @@ def run(ctx):
                  "species: cells alternate, one seed) (values 1, 2, 5) plus flag pairs (thorough: more pairs and all seven); apply_reaction around the flagged species; Euler %d steps "
                  "vs reference, tau-leap (flagged constant, integers, no impossible frozen entry), Gillespie 120 legal events x "
                  "seed window" % WIDE_STEPS, nwide, nwide if done == len(_CASES) else 0, exhaustive=(done == len(_CASES)))
+    ctx.subspace("flag provenance: 2 species x {3-cell periodic grid, 3-node graph} x cell environments {[a,b,b], [a,b,c]} + single "
+                 "cell / node in environment b; Species.chstt of each species in {False, True, {a:T,b:F}, {b:T}, {a:F,default:T}, "
+                 "{a:T,b:F,default:T}} (all 36 pairs); map in effect: generated by the system; generated then edited with set_chemostat "
+                 "against the species flag (each entry in turn, values 0 / 1 / True / 5; all entries); explicit all-zero / complement / "
+                 "rotated map given to RDSystem over truthy species flags; reset_chemostats; explicit then set_default_chemostats "
+                 "(quick: the operations on 6 of the 36 pairs, networks alternate; thorough: everything x 3 networks): system.chemostats "
+                 "vs the documented map, compute_dstatedt (both modes), compute_dspeciesdt per entry, make_dxdtf (single cell), "
+                 "apply_reaction, 2 steps of Euler / tau-leap, <= 24 Gillespie events", nprov,
+                 nprov if done == len(_CASES) else 0, exhaustive=(done == len(_CASES)))
     ctx.rule("one case per (shape, flag subset, network, space type); non-trivial = at least one entry flagged; all "
              "2^(species*cells) subsets are enumerated so a wrong-species / wrong-cell flag lookup cannot hide")
     ctx.assume("reference rate law and CME channel model (mc/ref); seed window [1000*VERIF_SEED, +2 quick / +8 thorough)")
